@@ -176,13 +176,20 @@ impl Storable for AnnotationDataSet {
     fn merge(&mut self, other: Self) -> Result<(), StamError> {
         let merge = self.config.merge;
         self.config.merge = true; //enable merge mode for underlying keys and data
-        for key in other.keys {
+        //the data of the other copy refers to its keys by the handles of that copy: translate them
+        let mut keymap: Vec<Option<DataKeyHandle>> = Vec::new();
+        for (i, key) in other.keys.into_iter().enumerate() {
             if let Some(key) = key {
-                self.insert(key.unbind())?;
+                let handle = self.insert(key.unbind())?;
+                keymap.resize(i + 1, None);
+                keymap[i] = Some(handle);
             }
         }
         for data in other.data {
-            if let Some(data) = data {
+            if let Some(mut data) = data {
+                if let Some(Some(handle)) = keymap.get(data.key.as_usize()) {
+                    data.key = *handle;
+                }
                 self.insert(data.unbind())?;
             }
         }
